@@ -286,7 +286,8 @@ func WorkerMain(t *testing.T, p *Prop, seed uint64, tier string, shard, shards i
 			if len(digests) < 4_000_000 {
 				digests[caseHash(c)] = struct{}{}
 			}
-			if len(rep.Samples) < 2 {
+			if len(rep.Samples) < 2 && len(c.JSON()) < 64<<10 {
+				// (bulky cases are not kept as evidence samples)
 				rep.Samples = append(rep.Samples, c)
 			}
 		}
@@ -340,6 +341,11 @@ func WorkerMain(t *testing.T, p *Prop, seed uint64, tier string, shard, shards i
 			c := gen(NewRand(sub), tier)
 			c.Prop = p.ID
 			c.Sub = sub
+			if want := os.Getenv("VERIF_VARIANT"); want != "" && c.Variant != want {
+				// (diagnosis: only the cases of one variant are run)
+				idx += uint64(shards)
+				return true
+			}
 			handle(c, ref)
 			idx += uint64(shards)
 			rep.SeededDone++
